@@ -105,6 +105,38 @@ def run_case(scn, drv):
                 j, op_fix2.l[j], op_fix2.u[j], op_fix.l[j], op_fix.u[j]), what='second_use')
     except Exception as e:
         viol('the same fix_time_window dictionary handed over a second time raises %s: %s' % (type(e).__name__, str(e)[:160]), what='second_use', err=impl.err_class(e))
+    # rolling re-optimisation: the caller keeps ONE dictionary (window given as a date), updates the values and uses it for the
+    # next, shorter horizon: it must pin what a fresh dictionary with the same content pins
+    if fx['mode'] == 'date' and tg.T >= 4:
+        try:
+            g = scn['grid']
+            T2 = min(tg.T - 1, max(min(fx['k'], tg.T - 1) + 2, tg.T // 2 + 1))
+            g2 = dict(g)
+            g2['end'] = g['_pts'][T2]
+            gen.fix_grid(g2)
+            scn2 = {k_: v_ for k_, v_ in scn.items() if k_ not in ('fix', 'prices2')}
+            scn2['grid'] = g2
+            scn2['prices'] = {k_: list(v_)[:T2] for k_, v_ in scn['prices'].items()}
+            rec2 = pf.setup_mono(scn2)
+            pf.solve_rec(rec2)
+            if rec2['tg'].T == T2 and not isinstance(rec2['res'], str):
+                x2 = np.array(rec2['res'].x, dtype=float)
+                user['x'] = x2.copy()
+                pr2 = {k_: np.asarray(v_, dtype=float)[:T2] for k_, v_ in scn['prices2'].items()}
+                with Quiet():
+                    op_a = rec2['portf'].setup_optim_problem(pr2, rec2['tg'], fix_time_window=user)
+                    op_b = rec2['portf'].setup_optim_problem(pr2, rec2['tg'], fix_time_window={'I': I_arg, 'x': x2.copy()})
+                feats.append('rolling-second-grid')
+                if not (np.array_equal(op_a.l, op_b.l) and np.array_equal(op_a.u, op_b.u)):
+                    j2 = int(np.argmax((np.asarray(op_a.l) != np.asarray(op_b.l)) | (np.asarray(op_a.u) != np.asarray(op_b.u))))
+                    viol('the fix_time_window dictionary used before on the longer horizon, with updated values, pins a different part on the shorter horizon than a fresh dictionary with the same content: variable %d has bounds [%s, %s] instead of [%s, %s]' % (
+                        j2, op_a.l[j2], op_a.u[j2], op_b.l[j2], op_b.u[j2]), what='second_use_other_grid')
+        except AssertionError as e:
+            viol('the fix_time_window dictionary used before on the longer horizon is refused on the shorter one: %s' % str(e)[:160], what='second_use_other_grid', err='assert')
+        except (IndexError, ValueError, TypeError) as e:
+            viol('the fix_time_window dictionary used before on the longer horizon raises %s on the shorter one: %s' % (type(e).__name__, str(e)[:160]), what='second_use_other_grid', err=impl.err_class(e))
+        except Exception as e:
+            feats.append('rolling-error:' + impl.err_class(e))
     m = op_fix.mapping
     fixed_vars = sorted(set(int(i) for i in m.index[m['time_step'].isin(steps)]))
     free_vars = [j for j in range(len(op_fix.c)) if j not in set(fixed_vars)]
